@@ -221,8 +221,15 @@ def run_cases(binary, lines, tag, shards=None, timeout=1800):
 
 def run_one(binary, line, timeout=120):
     """Run a single case in its own process; returns the outcome string ('abort:<sig>' if it dies)."""
+    def limit():
+        # a fixed 8 MiB main-thread stack, so that the depth at which recursion overflows does not depend on the caller's ulimit
+        import resource
+        try:
+            resource.setrlimit(resource.RLIMIT_STACK, (8 << 20, resource.getrlimit(resource.RLIMIT_STACK)[1]))
+        except (ValueError, OSError):
+            pass
     p = subprocess.run([binary, '-'], input=(line + '\n').encode(), stdout=subprocess.PIPE, stderr=subprocess.PIPE,
-                       timeout=timeout)
+                       timeout=timeout, preexec_fn=limit)
     out = p.stdout.decode('utf-8', 'replace').strip()
     if p.returncode != 0 or not out:
         return 'abort:%s' % (-p.returncode if p.returncode < 0 else p.returncode)
